@@ -1,7 +1,7 @@
 (* C17: the FOR loop proper (innerexpand_for_loop) equals the reference ref_for, for all bodies and item lists. *)
 From Coq Require Import String Ascii List Bool Arith Lia.
 From KV Require Import Lib.Str Lib.StrOps Lib.ODict Gen.Tags Model.Engine Model.EngineDomain Spec.RefExpand
-                       Proofs.StrProofs Proofs.EngineStr Proofs.EngineRepl Proofs.EngineC16 Proofs.CharClass.
+                       Proofs.StrProofs Proofs.EngineStr Proofs.EngineRepl Proofs.Alpha Proofs.CharClass.
 Import ListNotations.
 Open Scope string_scope.
 Open Scope list_scope.
